@@ -429,14 +429,14 @@ Proof.
         | exact Hc ].
     + cbn. discriminate.
   - (* pointer *) constructor.
-    + intros s cur v s' H. cbn [decode] in H. destruct (has_data s).
+    + intros s cur v s' H. cbn [decode] in H. rewrite ptr_guard_eq in H. destruct (has_data s).
       * destruct (decode nd t s _) as [x s1| | |] eqn:E; try discriminate. inversion H; subst.
         apply (g_mono t IHt) in E. exact E.
       * inversion H; subst. auto.
-    + intros s cur Hc. cbn [decode]. destruct (has_data s); [|discriminate].
+    + intros s cur Hc. cbn [decode]. rewrite ptr_guard_eq. destruct (has_data s); [|discriminate].
       destruct (decode nd t s _) as [x s1| | |] eqn:E; try discriminate.
       exfalso. revert E. apply (g_nohang t IHt). exact Hc.
-    + intros Hld s cur v s' Hd H. cbn [is_ld wire] in Hld. cbn [decode] in H. rewrite Hd in H.
+    + intros Hld s cur v s' Hd H. cbn [is_ld wire] in Hld. cbn [decode] in H. rewrite ptr_guard_eq, Hd in H.
       destruct (decode nd t s _) as [x s1| | |] eqn:E; try discriminate. inversion H; subst.
       apply (g_prog t IHt Hld _ _ _ _ Hd E).
   - (* aggregate *) constructor.
